@@ -75,6 +75,7 @@ func isBackendCall(cm *ssa.CallCommon) bool {
 func checkC13(c *Ctx) {
 	p := c.P
 	checkEngineCallbackDefaults(c, "R3")
+	checkErrorEventArgs(c, "R3")
 	checkManagerCallbackWiring(c, "R3")
 	checkCallbackSetters(c, "R3", "tableEngine", 5)
 	checkCallbackSetters(c, "R3", "game", 5)
@@ -559,6 +560,20 @@ func checkBackendErrors(c *Ctx, rule string, gt *types.Named, filter func(*ssa.C
 			c.Bad(rule, key, where, "backend error result is discarded")
 			continue
 		}
+		// the state the backend works on is the hand's current one (or, in a handler the dispatcher drives,
+		// the state it was dispatched)
+		if isBackendCall(call.Common()) && len(call.Common().Args) >= 1 && typeShort(call.Common().Args[0].Type()) == "*pokerface.GameState" {
+			a := p.Sym(call.Common().Args[0]).Strip()
+			okState := a.IsField("game", "gs")
+			for x := f; x != nil && !okState; x = x.Parent() {
+				for _, prm := range x.Params {
+					if symIsParam(a, prm) {
+						okState = true
+					}
+				}
+			}
+			c.Check(okState, rule, key+":state-argument", where, "backend is given the hand's current state", "the backend is asked to apply the step to "+a.String()+", not to the hand's current state")
+		}
 		handled, updatedOnFail := false, false
 		tested := false
 		for _, b := range f.Blocks {
@@ -598,4 +613,56 @@ func checkBackendErrors(c *Ctx, rule string, gt *types.Named, filter func(*ssa.C
 	}
 	c.Min(rule, "backend calls and self-driven steps", nb, min)
 
+}
+
+// checkErrorEventArgs: "reported rather than lost" — the table error callback and the hand's error listener are
+// handed the error at hand, never the nil constant; the engine's emitter passes on its own error parameter
+// together with the live table.
+func checkErrorEventArgs(c *Ctx, rule string) {
+	p := c.P
+	n := 0
+	isNilConst := func(v ssa.Value) bool {
+		cst, ok := v.(*ssa.Const)
+		return ok && cst.IsNil()
+	}
+	for _, f := range p.Funcs {
+		if !inPkg(p, f, "") {
+			continue
+		}
+		for _, ci := range Calls(f) {
+			cm := ci.Common()
+			if cm.IsInvoke() {
+				continue
+			}
+			// dynamic calls through the two error slots
+			if cm.StaticCallee() == nil {
+				if _, isB := cm.Value.(*ssa.Builtin); isB {
+					continue
+				}
+				v := p.Sym(cm.Value).Strip()
+				switch {
+				case v.IsField("tableEngine", "onTableErrorUpdated") && len(cm.Args) == 2:
+					n++
+					okErr := false
+					for _, prm := range f.Params {
+						if cm.Args[1] == ssa.Value(prm) && prm.Type().String() == "error" {
+							okErr = true
+						}
+					}
+					okTab := !isNilConst(cm.Args[0])
+					c.Check(okErr && okTab, rule, "error-event:emitter:"+fnName(f), p.InstrPos(ci), "table error callback(table, the emitter's own error parameter)", "the table error callback is invoked with "+p.Sym(cm.Args[0]).Strip().String()+", "+p.Sym(cm.Args[1]).Strip().String()+": the error (or the table) reported to the host is not the one at hand")
+				case v.IsField("game", "onGameErrorUpdated") && len(cm.Args) == 2:
+					n++
+					c.Check(!isNilConst(cm.Args[1]), rule, "error-event:hand-listener:"+fnName(f), p.InstrPos(ci), "hand error listener given an error", "the hand's error listener is invoked with a nil error: the failure is reported as no failure")
+				}
+				continue
+			}
+			if fnName(cm.StaticCallee()) == "emitErrorEvent" && cm.StaticCallee().Signature.Recv() != nil {
+				n++
+				last := cm.Args[len(cm.Args)-1]
+				c.Check(!isNilConst(last), rule, "error-event:call:"+fnName(f), p.InstrPos(ci), "error event emitted with an error", "an error event is emitted with the nil error: the failure is lost")
+			}
+		}
+	}
+	c.Min(rule, "error reports (emitter, hand listener, emit calls)", n, 11)
 }
